@@ -4,6 +4,7 @@ import re
 import hir as H
 import mir as M
 import rulelib as L
+import charpred as CP
 
 CRATES = ["identity_iota_core", "identity_did"]
 ID = "identity_iota_core::did::iota_did::IotaDID"
@@ -166,8 +167,16 @@ def run(F, R, tier):
                     kinds.add("non-empty")
                 if inner.get("k") == "binary" and inner["op"] == "Le" and "len" in fns:
                     kinds.add("max-len")
-                if "all" in fns and {"is_ascii_lowercase", "is_ascii_digit"} <= fns:
-                    kinds.add("charset")
+                if "all" in fns and not neg:
+                    # fold the per-character predicate over the finite code-point domain: must accept exactly [a-z0-9]
+                    alls = [x for x in H.walk(inner) if x.get("k") == "mcall" and x["name"] == "all" and H.strip(x["recv"]).get("name") == "chars"]
+                    if len(alls) == 1 and H.strip(alls[0]["args"][0]).get("k") == "closure":
+                        got, why = CP.closure_accepted_set(F, H.strip(alls[0]["args"][0]))
+                        want = set(range(0x61, 0x7B)) | set(range(0x30, 0x3A))
+                        if got == want:
+                            kinds.add("charset")
+                        else:
+                            r2.note("network-name character predicate accepts %s" % (why if got is None else sorted(chr(c) for c in (got ^ want))[:12]))
             if kinds == {"non-empty", "max-len", "charset"}:
                 okn = True
         r2.site("validate_network_name: non-empty ∧ len ≤ MAX_LENGTH(%s) ∧ all lowercase/digit: %s" % (maxlen, okn))
